@@ -35,6 +35,7 @@ class _Continue(Exception):
 
 class MinifierModel:
     def __init__(self, ctx):
+        self.ctx_ = ctx
         self.model = ctx.model
         self.ev = ctx.consts
         self.cls = self.model.cls(W)
@@ -81,65 +82,93 @@ class MinifierModel:
         return None
 
     def _extract_wrapper(self, tl, loop):
-        """for chunk in gen: [if LAST[-1:] + chunk[:1] in HAZ: yield b' ']
-        [if chunk: LAST = chunk]; yield chunk"""
+        """hazard stage, from the per-chunk paths of the wrapper loop:
+             [if T' + chunk[:1] in HAZ: yield b' ']; yield chunk;
+             [if chunk: T = chunk | chunk[-1:]]
+        with T' = T[-1:] when the whole last chunk is tracked, T when only
+        its last byte is."""
+        from .absint.symbody import SymBody
+        u = ast.unparse
         var = loop.target.id if isinstance(loop.target, ast.Name) else None
         if var is None:
             raise AnalysisError('wrapper loop target')
-        yields_chunk = 0
-        last_var = None
+        sym = SymBody(self.ctx_, tl)
+        paths = sym.run(loop.body, {})
         self.wrapper_ok = True
-        for st in loop.body:
-            if isinstance(st, ast.If):
-                t = st.test
+        hazards = None
+        track = None           # (name, 'chunk' | 'last-byte')
+        for p in paths:
+            ys = [e for e in p.events if e[0] == 'yield']
+            others = [e for e in p.events if e[0] not in ('yield',)]
+            if others or p.end not in ('fall', 'continue'):
+                raise AnalysisError('wrapper statement outside model: ' +
+                                    (u(others[0][1])[:50] if others and
+                                     isinstance(others[0][1], ast.AST)
+                                     else p.end))
+            haz_val = None
+            nonempty = None
+            for (t, val) in p.conds:
+                while isinstance(t, ast.UnaryOp) and \
+                        isinstance(t.op, ast.Not):
+                    t, val = t.operand, not val
+                if isinstance(t, ast.Name) and t.id == var:
+                    nonempty = val
+                    continue
                 if isinstance(t, ast.Compare) and len(t.ops) == 1 and \
-                        isinstance(t.ops[0], ast.In) and \
+                        isinstance(t.ops[0], (ast.In, ast.NotIn)) and \
                         isinstance(t.left, ast.BinOp) and \
                         isinstance(t.left.op, ast.Add):
-                    l, r = t.left.left, t.left.right
-                    ok = (isinstance(l, ast.Subscript) and
-                          isinstance(l.value, ast.Name) and
-                          ast.unparse(l.slice) == '-1:' and
-                          isinstance(r, ast.Subscript) and
-                          isinstance(r.value, ast.Name) and
-                          r.value.id == var and ast.unparse(r.slice) == ':1')
-                    haz = None
                     try:
-                        haz = ast.literal_eval(t.comparators[0])
+                        hz = ast.literal_eval(t.comparators[0])
                     except Exception:
-                        pass
-                    ys = [y for s in st.body for y in walk_own(s)
-                          if isinstance(y, ast.Yield)]
-                    if ok and isinstance(haz, (tuple, list, set)) and \
-                            len(ys) == 1 and const_str(ys[0].value) == b' ' \
-                            and not st.orelse:
-                        self.hazards = {bytes(h) for h in haz}
-                        last_var = l.value.id
-                        continue
-                    raise AnalysisError('wrapper hazard test outside model')
-                if isinstance(t, ast.Name) and t.id == var and \
-                        len(st.body) == 1 and isinstance(st.body[0], ast.Assign):
-                    a = st.body[0]
-                    if isinstance(a.targets[0], ast.Name) and \
-                            isinstance(a.value, ast.Name) and \
-                            a.value.id == var:
-                        if last_var is not None and \
-                                a.targets[0].id != last_var:
-                            self.wrapper_ok = False
-                        last_var = last_var or a.targets[0].id
-                        self._last_assigned = True
-                        continue
-                raise AnalysisError('wrapper statement outside model: ' +
-                                    ast.unparse(st)[:60])
-            if isinstance(st, ast.Expr) and isinstance(st.value, ast.Yield) \
-                    and isinstance(st.value.value, ast.Name) and \
-                    st.value.value.id == var:
-                yields_chunk += 1
-                continue
-            raise AnalysisError('wrapper statement outside model: ' +
-                                ast.unparse(st)[:60])
-        if yields_chunk != 1 or not getattr(self, '_last_assigned', False):
-            self.wrapper_ok = False
+                        raise AnalysisError('wrapper hazard test outside '
+                                            'model')
+                    l, r = t.left.left, t.left.right
+                    if u(r) != var + '[:1]':
+                        raise AnalysisError('wrapper hazard test outside '
+                                            'model')
+                    if isinstance(l, ast.Subscript) and \
+                            isinstance(l.value, ast.Name) and \
+                            u(l.slice) == '-1:':
+                        tk = (l.value.id, 'chunk')
+                    elif isinstance(l, ast.Name):
+                        tk = (l.id, 'last-byte')
+                    else:
+                        raise AnalysisError('wrapper hazard test outside '
+                                            'model')
+                    if track is not None and tk != track:
+                        self.wrapper_ok = False
+                    track = tk
+                    if not isinstance(hz, (tuple, list, set, frozenset)):
+                        raise AnalysisError('wrapper hazard set')
+                    hazards = {bytes(h) for h in hz}
+                    haz_val = val if isinstance(t.ops[0], ast.In) else not val
+                    continue
+                raise AnalysisError('wrapper test outside model: ' +
+                                    u(t)[:50])
+            want = ([b' '] if haz_val else []) + [var]
+            got = [(const_str(e[1]) if isinstance(const_str(e[1]), bytes)
+                    else u(e[1])) for e in ys]
+            if got != want:
+                self.wrapper_ok = False
+            # tracking update
+            if track is not None:
+                upd = p.env.get(track[0])
+                exp = var if track[1] == 'chunk' else var + '[-1:]'
+                if nonempty is True and (upd is None or u(upd) != exp):
+                    self.wrapper_ok = False
+                if nonempty is False and upd is not None:
+                    self.wrapper_ok = False
+                if nonempty is None and upd is not None and \
+                        track[1] == 'chunk':
+                    # unconditional update would forget the last non-empty
+                    # chunk when an empty chunk passes
+                    self.wrapper_ok = False
+        if hazards is None or track is None:
+            self.hazards = set()
+            self.wrapper_ok = self.wrapper_ok and hazards is None
+        else:
+            self.hazards = hazards
 
     # ---- token classes ---------------------------------------------------------
     def _spelling_tests(self):
@@ -147,9 +176,15 @@ class MinifierModel:
         -> [(node, predicate over a spelling)]"""
         tok = self.loop.target.id
         out = []
+        spell = {tok + '.code'}
+        for n in walk_own(self.loop):
+            if isinstance(n, ast.Assign) and len(n.targets) == 1 and \
+                    isinstance(n.targets[0], ast.Name) and \
+                    ast.unparse(n.value) == tok + '.code':
+                spell.add(n.targets[0].id)
         for n in walk_own(self.loop):
             if not (isinstance(n, ast.Compare) and len(n.ops) == 1 and
-                    ast.unparse(n.left) == tok + '.code'):
+                    ast.unparse(n.left) in spell):
                 continue
             op, c = n.ops[0], n.comparators[0]
             try:
@@ -278,8 +313,10 @@ class MinifierModel:
                     not isinstance(n.comparators[0].value, bool):
                 nm = ast.unparse(n.left)
                 if nm in st:
+                    init = st[nm] if isinstance(st[nm], int) and \
+                        not isinstance(st[nm], bool) else 0
                     self.cap[nm] = max(self.cap.get(nm, 0),
-                                       n.comparators[0].value + 1)
+                                       n.comparators[0].value + 1, init)
 
     # ---- abstract interpretation of the loop body -----------------------------
     def _build(self):
@@ -300,6 +337,7 @@ class MinifierModel:
 
     def _run(self, cls, state, tok):
         env = dict(zip(self.state_vars, state))
+        self.locals_ = {}
         outs = []
         try:
             self._block(self.loop.body, env, outs, cls, tok)
@@ -327,19 +365,41 @@ class MinifierModel:
             elif isinstance(st, ast.Assign) and len(st.targets) == 1:
                 k = ast.unparse(st.targets[0])
                 if k not in env:
+                    if isinstance(st.targets[0], ast.Name):
+                        # a per-token local: kept as an expression (with
+                        # earlier locals substituted) and expanded on use
+                        self.locals_[k] = self._expand(st.value)
+                        continue
                     raise AnalysisError('minifier assigns ' + k)
                 env[k] = self._value(st.value, env, cls, tok)
             elif isinstance(st, ast.AugAssign) and \
-                    isinstance(st.op, ast.Add):
+                    isinstance(st.op, (ast.Add, ast.Sub)):
                 k = ast.unparse(st.target)
                 if k not in env or not isinstance(st.value, ast.Constant):
                     raise AnalysisError('minifier augments ' + k)
-                env[k] = env[k] + st.value.value
+                env[k] = env[k] + st.value.value if isinstance(
+                    st.op, ast.Add) else env[k] - st.value.value
             elif isinstance(st, ast.Pass):
                 pass
             else:
                 raise AnalysisError('minifier statement outside the model: ' +
                                     ast.unparse(st)[:60])
+
+    def _expand(self, e):
+        """copy of e with the per-token locals substituted"""
+        if not self.locals_ or not any(
+                isinstance(x, ast.Name) and x.id in self.locals_
+                for x in ast.walk(e)):
+            return e
+        from .astutil import clone
+        loc = self.locals_
+
+        class T(ast.NodeTransformer):
+            def visit_Name(self, n):
+                if isinstance(n.ctx, ast.Load) and n.id in loc:
+                    return clone(loc[n.id])
+                return n
+        return T().visit(clone(e))
 
     def _test(self, t, env, cls, tok):
         v = self._value(t, env, cls, tok)
@@ -351,6 +411,10 @@ class MinifierModel:
     def _value(self, e, env, cls, tok):
         if isinstance(e, ast.Constant):
             return e.value
+        for i, (n, _p, neg, _m) in enumerate(self.tests):
+            if n is e:
+                return self.test_value[cls][i] != neg
+        e = self._expand(e)
         k = ast.unparse(e)
         if k in env:
             return env[k]
@@ -394,6 +458,7 @@ class MinifierModel:
         raise AnalysisError('minifier expression outside the model: ' + k[:60])
 
     def _chunk(self, e, tok):
+        e = self._expand(e)
         c = const_str(e)
         if isinstance(c, bytes):
             return ('lit', c)
